@@ -1287,6 +1287,7 @@ func writeEvidence(sc *scratch, id, tier string, seed uint64, seeds []uint64, m 
 		"race_worker_processes":   agg.raceProcs,
 		"tree_digest":             sc.treeDigest,
 		"known_findings_hit":      nKnown,
+		"environment_knobs":       map[string]any{"GOMAXPROCS_per_worker_process": gomaxprocsKnob, "note": "plain worker w runs with the (w mod 16)-th value; race workers use the default"},
 		"build_s":                 sc.buildS,
 	}
 	if id == "C20" {
